@@ -35,7 +35,7 @@ def confs_for(config):
 
 KINDS = ['init', 'init-cookie', 'init-invalid-ke', 'auth', 'new-child', 'rekey-child', 'rekey-ike', 'delete-child',
          'delete-ike', 'dpd', 'new-child-invalid-ke', 'rekey-child-invalid-ke', 'rekey-ike-invalid-ke',
-         'delete-after-rekey']
+         'delete-after-rekey', 'rekey-child+sibling', 'rekey-ike+sibling']
 
 
 def _trig(w, kind, who='A'):
@@ -59,6 +59,33 @@ def build_request(kind):
     base = kind.replace('-invalid-ke', '').replace('-cookie', '')
     config = 'ke-mismatch' if kind.endswith('invalid-ke') else 'match'
     confs = confs_for(config)
+    if kind.endswith('+sibling'):
+        # both peers initiated at the same moment: each holds two IKE_SAs of the one connection, each with a CHILD_SA of the
+        # same protect entry.  The request is sent on the first; while it is outstanding the second IKE_SA runs the same kind
+        # of exchange to the end (its kernel event / lifetime falls into the same second).
+        base = kind[:-8]
+        w = S.new_world(confs)
+        w.step(('acquire', 'A', 0, 0))
+        w.step(('acquire', 'B', 0, 0))
+        w.deliver_all()
+        a = w.endpoints['A']
+        if [x.state for x in a.controller.ike_sas] != [State.ESTABLISHED] * 2 or any(len(x.child_sas) != 1 for x in a.controller.ike_sas):
+            raise HarnessError('simultaneous initiation did not leave two IKE_SAs with a CHILD_SA each')
+        w.sent_log, w.recv_log = [], []
+        w.step(_trig(w, base))
+        if len(w.net) != 1:
+            raise NotSent(kind)
+        d = w.net[0]
+        if base == 'rekey-child':
+            w.step(('expire', 'A', bytes(a.controller.ike_sas[1].child_sas[0].inbound_spi), False))
+        else:
+            w.step(('due', 'A', 1, 'rekey_ike'))
+        guard = 0
+        while len(w.net) > 1 and guard < 40:
+            guard += 1
+            w.step(('deliver', next(x for x in w.net if x is not d).id))
+        tracked = dict(data=d.data, exch=d.data[18], mid=int.from_bytes(d.data[20:24], 'big'), spi_i=d.data[0:8], t0=w.clock)
+        return w, tracked
     if base in ('init', 'auth'):
         w = S.new_world(confs)
         if kind == 'init-cookie':
